@@ -68,7 +68,7 @@ func alphabet(c config) []string {
 		ev = append(ev, "nocid@p1", "wrongcid@p1")
 		if c.rrcExpected() {
 			ev = append(ev, "resp@p1", "respdrop@p1", "resplate@p1", "respfrom@att", "respcookie@p1", "resp@p2", "resp@peer",
-				"keep@p1", "respold@p1", "stalechal@p1", "chal@p1")
+				"keep@p1", "respold@p1", "stalechal@p1", "chal@p1", "zeroresp@p1")
 		}
 	}
 
